@@ -54,6 +54,8 @@ def framing_variants():
     V.append(("cl-list", P([(b"Content-Length", b"3, 3")], b"abc")))
     for bad in (b"+3", b"-3", b"0x3", b"3_0", b"3 ", b" 3", b"3\t", b"\xb3", b"3.0", b"", b"3;", b"1e1", b"\xd9\xa3"):
         V.append(("cl-" + repr(bad), P([(b"Content-Length", bad)], b"abc")))
+    for tail, n in ((b"50", 50), (b"5", 5), (b"10", 10)):
+        V.append(("cl-zeros4400-" + tail.decode(), P([(b"Content-Length", b"0" * 4400 + tail)], b"x" * n)))
     V.append(("cl-underscore", P([(b"Content_Length", b"3")], b"abc")))
     V.append(("cl-ws-before-colon", msg(method=b"POST", headers=[HOST], raw_body=b"").replace(b"Host: h\r\n", b"Host: h\r\nContent-Length : 3\r\n") + b"abc"))
     V.append(("cl-and-te", P([(b"Content-Length", b"3"), (b"Transfer-Encoding", b"chunked")], ch)))
@@ -67,6 +69,10 @@ def framing_variants():
     V.append(("te-two-lines", P([(b"Transfer-Encoding", b"gzip"), (b"Transfer-Encoding", b"chunked")], ch)))
     V.append(("te-underscore", P([(b"Transfer_Encoding", b"chunked")], ch)))
     V.append(("te-http10", P([(b"Transfer-Encoding", b"chunked"), (b"Connection", b"keep-alive")], ch, v=b"HTTP/1.0")))
+    # Transfer-Encoding on a request that is not HTTP/1.1 (whatever else its version says): processed or refused, then closed
+    for ver in (b"HTTP/1.2", b"HTTP/2.0", b"HTTP/0.9", b"HTTP/1.00"):
+        V.append(("te-ver-" + ver.decode(), P([(b"Transfer-Encoding", b"chunked"), (b"Connection", b"keep-alive")], ch, v=ver)))
+    V.append(("te-noversion", P([(b"Transfer-Encoding", b"chunked"), (b"Connection", b"keep-alive")], ch).replace(b"POST /a HTTP/1.1\r\n", b"POST /a\r\n", 1)))
     V.append(("te-http10-cl", P([(b"Transfer-Encoding", b"chunked"), (b"Content-Length", b"13"), (b"Connection", b"keep-alive")], ch, v=b"HTTP/1.0")))
     # chunk syntax
     C = lambda body: P([(b"Transfer-Encoding", b"chunked")], body)
